@@ -37,6 +37,7 @@ def _lib():
 def check_escape(text):
     from lxml import etree                  # pylint: disable=import-outside-toplevel
     text_utils = _lib()
+    core.rejected(text_utils.xml_escape, None)
     try:
         esc = text_utils.xml_escape(text)
     except Exception as exc:                # pylint: disable=broad-except
@@ -72,6 +73,7 @@ def check_duration(value, milliseconds):
     """value: int or float handed to format_hms."""
     text_utils = _lib()
     desc = f"format_hms({value!r}, {milliseconds})"
+    core.rejected(text_utils.format_hms, "soon", milliseconds)
     try:
         got = text_utils.format_hms(value, milliseconds)
     except Exception as exc:                # pylint: disable=broad-except
